@@ -345,7 +345,7 @@ def dynamic_monitor(ck, eng, live, d):
     """Run failing scripts with the constructors wrapped; every construction is re-checked.  -> True if a
     violation was reported."""
     from vtlengine import semantic_analysis, run
-    before = len(ck.viol) + len(ck.known_hits)
+    before = len(ck.viol)
     pkg = os.path.join(vlib.REPO, 'src', 'vtlengine') + os.sep
     mon = Monitor(eng, pkg)
     mon.install(['SemanticError', 'RunTimeError', 'DataLoadError', 'InputValidationException'])
@@ -374,7 +374,7 @@ def dynamic_monitor(ck, eng, live, d):
     for r in mon.records:
         codes[r.get('code') or 'FAILED'] = codes.get(r.get('code') or 'FAILED', 0) + 1
     ck.note('monitor_distinct_codes', len(codes))
-    return len(ck.viol) + len(ck.known_hits) > before
+    return len(ck.viol) > before
 
 
 def check_records(ck, recs, live, case, outcome):
